@@ -7,18 +7,46 @@
 pub struct Tape<'a> {
     data: &'a [u8],
     pos: usize,
+    /// state of the stretch generator (0 = off): see `stretch`
+    stretch: u64,
 }
 
 impl<'a> Tape<'a> {
     pub fn new(data: &'a [u8]) -> Self {
-        Tape { data, pos: 0 }
+        Tape { data, pos: 0, stretch: 0 }
     }
 
     #[inline]
     pub fn byte(&mut self) -> u8 {
-        let b = self.data.get(self.pos).copied().unwrap_or(0);
+        let b = match self.data.get(self.pos) {
+            Some(b) => *b,
+            None if self.stretch != 0 => {
+                // xorshift64*: a pure function of the tape's bytes
+                let mut x = self.stretch;
+                x ^= x >> 12;
+                x ^= x << 25;
+                x ^= x >> 27;
+                self.stretch = x;
+                (x.wrapping_mul(0x2545F4914F6CDD1D) >> 56) as u8
+            }
+            None => 0,
+        };
         self.pos += 1;
         b
+    }
+
+    /// From here on, reads beyond the end of the tape no longer give 0 but a pseudo-random
+    /// continuation derived from the tape's own bytes. Used for phases that need many small
+    /// independent choices (the layout of a program that is already built), where an exhausted
+    /// tape would otherwise always produce the same, simplest layout. The case stays a pure
+    /// function of the tape; text-level shrinking takes care of minimising the layout.
+    pub fn stretch(&mut self) {
+        let mut h: u64 = 0xcbf29ce484222325;
+        for b in self.data {
+            h ^= *b as u64;
+            h = h.wrapping_mul(0x100000001b3);
+        }
+        self.stretch = h | 1;
     }
 
     pub fn exhausted(&self) -> bool {
